@@ -998,6 +998,8 @@ func main() {
 		}
 		sort.Strings(r.pool)
 	}
+	// keys with a meaning of their own in YAML (merge key, null, booleans, numbers): foreign all the same
+	r.pool = append(r.pool, "<<", "~", "null", "true", "1", "=")
 
 	type input struct {
 		name string
